@@ -80,19 +80,24 @@ Parses(f)    == Decoded(f) \notin {"L", "Y"}
 Tokenizes(f) == Decoded(f) # "L"
 ParseDiag(f) == IF Decoded(f) = "L" THEN {<<"P0031", f>>} ELSE IF Decoded(f) = "Y" THEN {<<"P0002", f>>} ELSE {}
 
-(* semantic(): parse diagnostics of every file that does not parse + analysis of the ones that do *)
-CheckDiags(S) ==
+(* semantic(): parse diagnostics of every file that does not parse + analysis of the ones that do.  The rule that
+   finds the undeclared variable of the "S" files stops at its first hit: with several such files exactly one of them
+   is named, which one is not specified (it depends on the order in which the declarations are visited). *)
+SemFaulty(S) == {g \in S : Parses(g) /\ Decoded(g) = "S"}
+SemPicks(S) == IF SemFaulty(S) = {} THEN {"-"} ELSE SemFaulty(S)
+CheckDiagsWith(S, pick) ==
   LET parsed == {f \in S : Parses(f)}
   IN  UNION {ParseDiag(f) : f \in S}
       \cup (IF parsed = {} THEN {<<"P0030", "-">>} ELSE {})
-      \cup {<<"P0015", f>> : f \in {g \in parsed : Decoded(g) = "S"}}
+      \cup (IF pick = "-" THEN {} ELSE {<<"P0015", pick>>})
       \cup {<<"P0012", f>> : f \in {g \in parsed : Decoded(g) = "D" /\ Provider[g] \notin parsed}}
+CheckDiagSets(S) == {CheckDiagsWith(S, pick) : pick \in SemPicks(S)}
 
 Run ==
   /\ phase = "Read"
   /\ CASE cmd = "check" ->
-            LET ds == CheckDiags(sources)
-            IN  diags' = ds /\ okLine' = (ds = {}) /\ exit' = (IF ds = {} THEN 0 ELSE 1)
+            \E ds \in CheckDiagSets(sources) :
+                diags' = ds /\ okLine' = (ds = {}) /\ exit' = (IF ds = {} THEN 0 ELSE 1)
        [] cmd = "echo" ->
             /\ diags' = UNION {ParseDiag(f) : f \in sources}
             /\ okLine' = FALSE
@@ -131,7 +136,8 @@ Denotation(a) == IF "?missing" \in {a[i] : i \in 1..Len(a)} THEN {"?missing"}
 Expected(c, den) ==
   IF den = {"?missing"} THEN <<1, FALSE, {<<"P0023", "?missing">>}>>
   ELSE IF \E e \in den : IsBadEntry(e) THEN <<1, FALSE, {<<"P0026", e>> : e \in {x \in den : IsBadEntry(x)}}>>
-  ELSE IF c = "check" THEN <<IF CheckDiags(den) = {} THEN 0 ELSE 1, CheckDiags(den) = {}, CheckDiags(den)>>
+  ELSE IF c = "check" THEN (IF diags \in CheckDiagSets(den) THEN <<IF diags = {} THEN 0 ELSE 1, diags = {}, diags>>
+                                                                ELSE <<-2, FALSE, {}>>)       \* not an allowed observation
   ELSE IF c = "echo" THEN <<IF \A f \in den : Parses(f) THEN 0 ELSE 1, FALSE, UNION {ParseDiag(f) : f \in den}>>
   ELSE <<IF \A f \in den : Tokenizes(f) THEN 0 ELSE 1, \A f \in den : Tokenizes(f), diags>>
 DependsOnlyOnDenotation == Done => Obs = Expected(cmd, Denotation(args))
